@@ -9,7 +9,7 @@ open Saito.Chain Saito.ForkId Saito.SyncDelivery
                                           → `fid=<64 hex> anc=<n> fp=<n> nwc=<0|1>`
   * `flags …`, `reset <node> <gp> <ld>`, `save <node>`, `restore <node>`                                   → `-`
   * `deliver <node> <block fields as in suite chain>`  one ConsensusEvent::BlockFetched
-                                          → `tip=<id>:<hash> queue=[…] blocks=[…]` | `dead`
+                                          → `tip=<id>:<hash> queue=[…] blocks=[…]` | `panic` | `stall` (| `dead` afterwards)
 -/
 namespace Drv.Sync2
 
@@ -76,6 +76,11 @@ def step (d : DS) (line : String) : DS × String :=
     match lookup d.chains an, lookup d.chains bn, la.toNat?, lb.toNat? with
     | some a, some b, some la, some lb => (d, pairAns (a.take la) (b.take lb))
     | _, _, _, _ => (d, "bad-op")
+  -- `side`: the real peer also holds the requester's fork as an older side chain; the estimate is a function of its longest chain
+  | ["pair", an, la, bn, lb, "side"] =>
+    match lookup d.chains an, lookup d.chains bn, la.toNat?, lb.toNat? with
+    | some a, some b, some la, some lb => (d, pairAns (a.take la) (b.take lb))
+    | _, _, _, _ => (d, "bad-op")
   | ["reset", name, gp, ld] =>
     match gp.toNat? with
     | some g => ({ d with nodes := store d.nodes name { st := { gp := g, loadingDone := Drv.Chain.bit ld } } }, "-")
@@ -92,7 +97,12 @@ def step (d : DS) (line : String) : DS × String :=
     match lookup d.nodes name, parseBlock rest with
     | some n, some b =>
       let n' := deliver d.fl n b
-      ({ d with nodes := store d.nodes name n' }, showNode n')
+      let ans := if n'.dead && !n.dead then
+          (match deliverWhy d.fl n b with
+           | some .stall => "stall"
+           | _ => "panic")
+        else showNode n'
+      ({ d with nodes := store d.nodes name n' }, ans)
     | _, _ => (d, "bad-op")
   | _ => (d, "bad-op")
 
